@@ -141,6 +141,33 @@ impl Oracle for C01 {
                 check_address(w, a, *l, out, "");
             }
         }
+        // bech32 addresses may be written in upper case (BIP-173): the same address, the
+        // same answer
+        for a in 0..w.book.addrs.len() {
+            let text = w.book.text(a).to_string();
+            let lower = text.to_lowercase();
+            if !(lower.starts_with("bc1") || lower.starts_with("tb1") || lower.starts_with("bcrt1")) {
+                continue;
+            }
+            let upper = text.to_uppercase();
+            let r1 = w.utxos_all(&text, None, None);
+            let r2 = w.utxos_all(&upper, None, None);
+            let render = |r: &Result<Result<crate::world::Paged, ic_btc_interface::GetUtxosError>, String>| match r {
+                Ok(Ok(p)) => format!("{:?} {:?}", p.pages.iter().map(|x| (x.tip_height, x.tip_block_hash.clone())).collect::<Vec<_>>(), p.all()),
+                Ok(Err(e)) => format!("ERR {:?}", e),
+                Err(p) => format!("TRAP {}", p),
+            };
+            if render(&r1) != render(&r2) {
+                out.violation(
+                    "upper-case-spelling-answered-differently",
+                    None,
+                    json!({"address": text, "upper_case": upper, "lower_case_answer": render(&r1).chars().take(200).collect::<String>(),
+                           "upper_case_answer": render(&r2).chars().take(200).collect::<String>()}),
+                );
+            } else {
+                out.count("upper_case_spellings_compared");
+            }
+        }
         if let Ok(i) = w.info() {
             out.outcomes.insert(fp64(&i.block_hash));
         }
@@ -300,11 +327,12 @@ pub fn run(tier: &str) -> i32 {
         tall_chain_family(&mut rep, *l, *t);
     }
     rep.parts.push(json!({"part": "tall-chain family (heights beyond one byte, old stable output spent near the tip)", "runs": tall}));
-    rep.rule = "LEDGER histories: every tree of <= n blocks in every arrival order, each block carrying a body from the menu (coinbase, spend of parent coinbase, same-block create-and-spend, op_return/zero-value/bare/oversized outputs, the shared transaction T, outputs to a pair of addresses where one text is a prefix of the other, spend of the oldest output, multi-output/multi-input), at most k non-default bodies per history, unsliced ingestion opportunities; in every state every book address is queried with all pages followed (page sizes 1000, and 1/2 through the hook) and compared with the ledger replayed from genesis to the named tip".into();
+    rep.rule = "LEDGER histories: every tree of <= n blocks in every arrival order, each block carrying a body from the menu (coinbase, spend of parent coinbase, same-block create-and-spend, op_return/zero-value/bare/oversized outputs, the shared transaction T, outputs to a pair of addresses where one text is a prefix of the other, spend of the oldest output, multi-output/multi-input), at most k non-default bodies per history, unsliced ingestion opportunities; in every state every book address is queried with all pages followed (page sizes 1000, and 1/2 through the hook) and compared with the ledger replayed from genesis to the named tip; bech32 addresses are also queried in their upper-case spelling".into();
     rep.bounds = json!({"tier": tier, "profile": "LEDGER"});
     rep.assume("domain: transaction-valid blocks (the menu only offers bodies whose inputs are unspent on the block's own chain)");
     rep.assume("order within one height is not part of the statement and is not compared");
     rep.assume("address text <-> script mapping shared with rust-bitcoin");
+    rep.floor("upper_case_spellings_compared", 1000);
     rep.floor("states_with_two_leaves", 100);
     rep.floor("states_shared_tx_on_two_blocks", 10);
     rep.floor("states_with_same_block_spend", 100);
